@@ -410,8 +410,8 @@ func (s *Syncer) addPeer(p *Peer) error {
 		// handshaking at the same time have all passed it, so the cap is
 		// enforced again at the moment the peer is registered
 		var in int
-		for _, q := range s.peers {
-			if q.Inbound {
+		for addr, q := range s.peers {
+			if q.Inbound && addr != p.t.Addr { // a connection of the same address is replaced below
 				in++
 			}
 		}
@@ -419,11 +419,13 @@ func (s *Syncer) addPeer(p *Peer) error {
 			return errors.New("too many inbound peers")
 		}
 	}
-	if _, ok := s.peers[p.t.Addr]; ok {
-		// peers are keyed by the address they announce; a second connection
-		// announcing the same address would replace the first in the map, which
-		// then is neither counted against the caps nor disconnected on shutdown
-		return fmt.Errorf("already connected to %v", p.t.Addr)
+	if old, ok := s.peers[p.t.Addr]; ok {
+		// peers are keyed by the address they announce. A second connection
+		// announcing the same address is most likely the same node coming
+		// back while its old connection has not been noticed to be dead; the
+		// old connection is closed so that it is not served outside the map
+		// (uncounted against the caps, never disconnected on shutdown)
+		old.Close()
 	}
 	s.peers[p.t.Addr] = p
 	return nil
@@ -480,7 +482,9 @@ func (s *Syncer) releaseInflight(key string) {
 func (s *Syncer) runPeer(p *Peer) {
 	defer func() {
 		s.mu.Lock()
-		delete(s.peers, p.t.Addr)
+		if s.peers[p.t.Addr] == p { // not replaced by a newer connection of the same address
+			delete(s.peers, p.t.Addr)
+		}
 		s.mu.Unlock()
 
 		// notify goroutines of removed peer
